@@ -210,12 +210,12 @@ func purityPool(samples map[string]*Msg, thorough bool) ([]string, []*Msg) {
 		for _, tn := range sortedKeys(samples[n].Tags) {
 			tt := tagByName[tn]
 			k++
-			if !thorough && k%4 != 0 && tn != "UnstructuredAddenda" {
+			if k%4 != 0 && tn != "UnstructuredAddenda" {
 				continue
 			}
 			vals := tt.Vals(samples[n].Tags[tn])
 			for i := range vals {
-				if i%2 == 0 || thorough || tn == "UnstructuredAddenda" {
+				if i%2 == 0 || tn == "UnstructuredAddenda" {
 					ov := samples[n].Clone()
 					ov.Tags[tn] = tt.New(tt.Marker(samples[n].Tags[tn]), setAt(vals, i, vals[i]+"OVERLONG VALUE OVERLONG VALUE OVERLONG"))
 					names = append(names, fmt.Sprintf("%s#%s.%d-overlong", n, tn, i))
@@ -223,7 +223,7 @@ func purityPool(samples map[string]*Msg, thorough bool) ([]string, []*Msg) {
 				}
 			}
 		}
-		if !thorough && len(pool) >= 120 {
+		if (!thorough && len(pool) >= 120) || len(pool) >= 600 {
 			break
 		}
 	}
